@@ -4,8 +4,9 @@
 
   OBLIGATIONS (audited by `check` with `#print axioms`):
     grouping_partitions, send_ok_all_acked, send_err_remaining, send_dead_nothing_sent, status_table,
-    failures_of_the_property_fail, conn_replaced, signals_independent, outage_does_not_stop_others,
-    every_event_delivered, exactly_once_without_failures, dead_endpoint_drops, retries_exhausted_drops
+    failures_of_the_property_fail, success_iff_acknowledged, conn_replaced, stale_sender_costs_one_attempt,
+    signals_independent, outage_does_not_stop_others, every_event_delivered, exactly_once_without_failures,
+    dead_endpoint_drops, retries_exhausted_drops, broken_bodies_exhaust_retries
 
   The model is sequential per signal (one receiver task per signal, one request in flight at a time —
   client.rs:247-294, 552-576); hyper/tokio/TCP and the wall-clock back-off are runtime and appear only as the
@@ -48,19 +49,26 @@ theorem send_ok_all_acked (tr : Transport) (reqs : List Request) (net net' : Net
   exact ⟨es, h1, h2, h3⟩
 
 /-- On failure the remainder handed back for the retry is exactly the not-yet-acknowledged requests: the batch
-    splits as `done ++ rem`, each request of `done` was transmitted once and acknowledged, the newest log entry
-    is the failed transmission of the first request of `rem` (its ids, or unread when the connection was reset
-    before the body), and nothing of `rem`'s tail was transmitted. -/
+    splits as `done ++ rem`, each request of `done` was transmitted once and acknowledged, and nothing of
+    `rem`'s tail was transmitted. The failed attempt on the first request of `rem` is the newest log entry (its
+    ids, or unread when the connection was reset before the body) — or left no entry at all: the slot held a
+    stale sender (the peer had dropped the connection after the head of an earlier, acknowledged response — or
+    before this `send`), `send_request` failed on it and nothing reached the endpoint; the slot is then empty. -/
 theorem send_err_remaining (tr : Transport) (reqs rem : List Request) (net net' : Net) (hd : net.dead = false)
     (h : send tr reqs net = (.retry rem, net')) :
-    ∃ (done : List Request) (es : List Entry) (f : Entry) (r : Request) (rest : List Request),
+    ∃ (done : List Request) (es fs : List Entry) (r : Request) (rest : List Request),
       reqs = done ++ rem ∧ rem = r :: rest ∧
-      net'.log = f :: (es ++ net.log) ∧
+      net'.log = fs ++ (es ++ net.log) ∧
       es.reverse.map (·.ids) = done.map (fun r => some (reqIds r)) ∧
       (∀ e ∈ es, ackedBy tr e = true) ∧
-      ackedBy tr f = false ∧ (f.ids = some (reqIds r) ∨ (f.ids = none ∧ f.resp = .rstB)) := by
-  obtain ⟨done, es, f, r, rest, h1, h2, h3, h4, h5, h6, h7, _⟩ := send_retry tr reqs rem net net' hd h
-  exact ⟨done, es, f, r, rest, h1, h2, h3, h4, h5, h6, h7⟩
+      ((∃ f, fs = [f] ∧ ackedBy tr f = false ∧ (f.ids = some (reqIds r) ∨ (f.ids = none ∧ f.resp = .rstB))) ∨
+       (fs = [] ∧ net'.slot = false ∧
+          ((es = [] ∧ net.staleNow = true) ∨ (∃ e es', es = e :: es' ∧ e.resp.leavesStale = true)))) := by
+  obtain ⟨done, es, fs, r, rest, h1, h2, h3, h4, h5, _, h7⟩ := send_retry tr reqs rem net net' hd h
+  refine ⟨done, es, fs, r, rest, h1, h2, h3, h4, h5, ?_⟩
+  rcases h7 with ⟨f, hf1, hf2, hf3, _⟩ | h7
+  · exact Or.inl ⟨f, hf1, hf2, hf3⟩
+  · exact Or.inr h7
 
 /-- Connection refused: nothing is transmitted and the whole batch is handed back. -/
 theorem send_dead_nothing_sent (tr : Transport) (r : Request) (rs : List Request) (net : Net)
@@ -70,29 +78,34 @@ theorem send_dead_nothing_sent (tr : Transport) (r : Request) (rs : List Request
 
 /-! ### Status interpretation -/
 
-/-- HTTP: success iff the status is 2xx. gRPC: success iff the HTTP status is 2xx, the response body and
-    trailers arrive to their end (inside the request timeout) and the `grpc-status` (from the trailers, or from
-    the headers of a Trailers-Only response) is absent or 0. -/
+/-- HTTP: success iff the status is 2xx (the body is never read). gRPC: success iff the HTTP status is 2xx, the
+    response body and trailers arrive to their END — not a stall, not a stream reset, not a dropped connection —
+    (inside the request timeout) and the `grpc-status` (from the trailers, or from the headers of a
+    Trailers-Only response) is absent or 0. -/
 theorem status_table (r : Resp) :
     (interpret .http r = true ↔ (200 ≤ r.httpStatus ∧ r.httpStatus < 300)) ∧
     (interpret .grpc r = true ↔
       (200 ≤ r.httpStatus ∧ r.httpStatus < 300 ∧ r.bodyEnds = true ∧
-        (r.grpcStatus = none ∨ r.grpcStatus = some 0))) := by
-  constructor
+        (r.grpcStatus = none ∨ r.grpcStatus = some 0))) ∧
+    (r.bodyEnds = true ↔ (r ≠ .stallH ∧ r ≠ .rstH ∧ r ≠ .drpH)) := by
+  refine ⟨?_, ?_, ?_⟩
   · simp [interpret]
   · cases h : r.grpcStatus <;> simp [interpret, h, and_assoc]
+  · cases r <;> simp [Resp.bodyEnds]
 
 /-- Everything the property lists as a failure is a failure for the client (and so is retried): a timeout
     (no answer at all, or — gRPC — headers and then silence), a connection dropped before or after the body was
-    read, a non-2xx status on either transport, a non-zero
-    gRPC status in trailers or in a Trailers-Only response. -/
+    read, a gRPC response that breaks after its `:status 200` headers and before any trailers (stream reset or
+    connection dropped), a non-2xx status on either transport, a non-zero gRPC status in trailers or in a
+    Trailers-Only response. -/
 theorem failures_of_the_property_fail (tr : Transport) (n : Nat) :
     okResp tr .stall = false ∧ okResp .grpc .stallH = false ∧ okResp tr .rstB = false ∧ okResp tr .rstA = false ∧
+    okResp .grpc .rstH = false ∧ okResp .grpc .drpH = false ∧
     ((n < 200 ∨ 300 ≤ n) → okResp tr (.status n) = false) ∧
     (n ≠ 0 → okResp .grpc (.grpc n) = false ∧ okResp .grpc (.grpcH n) = false) ∧
     okResp tr .ack = true ∧ okResp tr .ackBody = true ∧ okResp .grpc (.grpc 0) = true := by
-  refine ⟨by cases tr <;> decide, by decide, by cases tr <;> decide, by cases tr <;> decide, ?_, ?_,
-    by cases tr <;> decide, by cases tr <;> decide, by decide⟩
+  refine ⟨by cases tr <;> decide, by decide, by cases tr <;> decide, by cases tr <;> decide, by decide, by decide,
+    ?_, ?_, by cases tr <;> decide, by cases tr <;> decide, by decide⟩
   · intro h
     cases hb : okResp tr (.status n) with
     | false => rfl
@@ -102,25 +115,59 @@ theorem failures_of_the_property_fail (tr : Transport) (n : Nat) :
       have hs : (Resp.status n).httpStatus = n := rfl
       cases tr with
       | http => have := (status_table (.status n)).1.1 hi; rw [hs] at this; omega
-      | grpc => have := (status_table (.status n)).2.1 hi; rw [hs] at this; omega
+      | grpc => have := (status_table (.status n)).2.1.1 hi; rw [hs] at this; omega
   · intro h
     simp [okResp, interpret, Resp.httpStatus, Resp.headArrives, Resp.grpcStatus, h]
 
+/-- **No false success, no needless resend.** The client counts a request as delivered exactly when the
+    collector acknowledged it (`Resp.isAck`: a 2xx status line on OTLP/HTTP — whatever becomes of the body —,
+    `grpc-status: 0` or a complete 2xx response without any grpc-status on gRPC): for every response kind, both
+    transports. In particular a gRPC response whose body stalls or breaks before the trailers is never read as
+    `grpc-status: 0`. -/
+theorem success_iff_acknowledged (tr : Transport) (r : Resp) : okResp tr r = Resp.isAck tr r := by
+  cases tr <;> cases r <;> first
+    | rfl
+    | (simp [okResp, interpret, Resp.isAck, Resp.headArrives, Resp.httpStatus, Resp.bodyEnds, Resp.grpcStatus] <;> rfl)
+
 /-! ### The connection slot -/
 
-/-- After a request on a live endpoint the slot holds a connection iff a response head arrived (a failing
-    *status* keeps the connection, a broken exchange does not); the next request then arrives on a fresh
-    connection — and one more connection is established — iff the slot was left empty. -/
-theorem conn_replaced (tr : Transport) (net : Net) (r1 r2 : Request) (hd : net.dead = false) :
+/-- After a request on a live endpoint (no stale sender pooled) the slot holds a connection iff a response head
+    arrived (a failing *status* keeps the connection, a broken exchange does not); unless that connection was
+    dropped behind the response head (`leavesStale`), the next request then arrives on a fresh connection — and
+    one more connection is established — iff the slot was left empty. -/
+theorem conn_replaced (tr : Transport) (net : Net) (r1 r2 : Request) (hd : net.dead = false)
+    (hs : net.staleNow = false) (hl : net.nextResp.leavesStale = false) :
     let n1 := (attempt tr net r1).2
     let n2 := (attempt tr n1 r2).2
     n1.slot = net.nextResp.headArrives ∧
     (∃ e, n2.log = e :: n1.log ∧ e.fresh = !net.nextResp.headArrives) ∧
     n2.conns = n1.conns + (if net.nextResp.headArrives then 0 else 1) := by
-  simp only [attempt_live tr net r1 hd]
+  simp only [attempt_live tr net r1 hd hs]
   have hd1 : (net.record r1).dead = false := by simpa using hd
-  simp only [attempt_live tr _ r2 hd1]
+  have hs1 : (net.record r1).staleNow = false := by simp [Net.staleNow, hl]
+  simp only [attempt_live tr _ r2 hd1 hs1]
   refine ⟨rfl, ⟨_, rfl, rfl⟩, rfl⟩
+
+/-- A connection dropped behind a response head costs exactly one attempt: the sender was already put back, the
+    next attempt takes it, fails on it **without transmitting anything** (no log entry, the script is not
+    consumed) and empties the slot; the attempt after that connects afresh and is transmitted. -/
+theorem stale_sender_costs_one_attempt (tr : Transport) (net : Net) (r1 r2 r3 : Request) (hd : net.dead = false)
+    (hs : net.staleNow = false) (hl : net.nextResp.leavesStale = true) (hh : net.nextResp.headArrives = true) :
+    let n1 := (attempt tr net r1).2
+    let a2 := attempt tr n1 r2
+    let a3 := attempt tr a2.2 r3
+    n1.staleNow = true ∧ a2.1 = false ∧ a2.2.log = n1.log ∧ a2.2.script = n1.script ∧ a2.2.slot = false ∧
+    (∃ e, a3.2.log = e :: n1.log ∧ e.fresh = true ∧ e.resp = n1.nextResp) := by
+  intro n1 a2 a3
+  have e1 : n1 = net.record r1 := by simp [n1, attempt_live tr net r1 hd hs]
+  have hd1 : n1.dead = false := by rw [e1]; simpa using hd
+  have hs1 : n1.staleNow = true := by rw [e1]; simp [Net.staleNow, hl, hh]
+  have e2 : a2 = (false, { n1 with slot := false, stale := false }) := attempt_stale tr n1 r2 hd1 hs1
+  have e3 : a3 = (okResp tr a2.2.nextResp, a2.2.record r3) :=
+    attempt_live tr a2.2 r3 (by rw [e2]; exact hd1) (by rw [e2]; simp [Net.staleNow])
+  refine ⟨hs1, by rw [e2], by rw [e2], by rw [e2], by rw [e2], ?_⟩
+  rw [e3, e2]
+  exact ⟨_, rfl, rfl, rfl⟩
 
 /-! ### Independence of the signals -/
 
@@ -155,12 +202,13 @@ theorem outage_does_not_stop_others (tr : Transport) (ops : List (Signal × Requ
 
 /-! ### Delivery -/
 
-/-- **Every accepted event is delivered.** On a live endpoint whose remaining failing responses fit in the
-    retry budget (10 retries), whatever the limit, sizes, transport and failure kinds: the receiver ends with
-    success and every event emitted for the signal is contained in at least one request that was acknowledged
-    (`es` are the log entries added by this batch). -/
+/-- **Every accepted event is delivered.** On a live endpoint whose failures still to come (`Net.pending`: the
+    responses the client counts as failures, plus one wasted attempt per connection dropped behind a response
+    head) fit in the retry budget (10 retries), whatever the limit, sizes, transport and failure kinds: the
+    receiver ends with success and every event emitted for the signal is contained in at least one request that
+    was acknowledged (`es` are the log entries added by this batch). -/
 theorem every_event_delivered (tr : Transport) (limit : Nat) (evs : List Ev) (net : Net)
-    (hd : net.dead = false) (hf : failCount tr net.script ≤ maxRetries) :
+    (hd : net.dead = false) (hf : net.pending tr ≤ maxRetries) :
     ∃ (net' : Net) (es : List Entry), runSignal tr limit evs net = (true, net') ∧ net'.log = es ++ net.log ∧
       ∀ ev ∈ evs, ∃ e ∈ es, ackedBy tr e = true ∧ ∃ ids, e.ids = some ids ∧ ev.id ∈ ids := by
   have hg := grouping_partitions limit evs
@@ -189,7 +237,7 @@ theorem every_event_delivered (tr : Transport) (limit : Nat) (evs : List Ev) (ne
     entries added by the batch are all acknowledged and their ids, oldest request first, are exactly the ids
     of the emitted events in emission order — every event in exactly one acknowledged request, none twice. -/
 theorem exactly_once_without_failures (tr : Transport) (limit : Nat) (evs : List Ev) (net : Net)
-    (hd : net.dead = false) (hf : failCount tr net.script = 0) :
+    (hd : net.dead = false) (hf : net.pending tr = 0) :
     ∃ (net' : Net) (es : List Entry), runSignal tr limit evs net = (true, net') ∧ net'.log = es ++ net.log ∧
       (∀ e ∈ es, ackedBy tr e = true) ∧
       (es.filterMap (·.ids)).flatten = evs.map (·.id) := by
@@ -241,22 +289,43 @@ theorem dead_endpoint_drops (tr : Transport) (limit : Nat) (ev : Ev) (evs : List
     `true` afterwards: the batcher notifies flush watchers once a batch is *processed*, delivered or not — that
     is property C07's reading of flush, and why `every_event_delivered` carries the budget hypothesis.) -/
 theorem retries_exhausted_drops :
-    let net : Net := ⟨false, List.replicate 11 (.status 503), true, 1, []⟩
+    let net : Net := ⟨false, List.replicate 11 (.status 503), true, 1, [], false⟩
     let out := runSignal .http 1 [⟨1, 60⟩] net
     out.1 = false ∧ out.2.log.length = 11 ∧ out.2.log.all (fun e => !ackedBy .http e) = true := by
   decide
 
+/-- Wasted attempts count against the same budget. (1) OTLP/HTTP, a collector that answers `200` and breaks
+    every response body with the connection: every request is acknowledged, but each one after the first costs
+    a failed attempt on the stale pooled sender — of 12 single-event requests 11 are transmitted (and
+    acknowledged), then the budget is spent and the 12th event is dropped. (2) gRPC, six responses in a row whose
+    connection drops between the headers and the trailers: 6 failed transmissions + 5 failed attempts on a stale
+    sender = 11 failures, the event is dropped; with five such responses it is delivered. -/
+theorem broken_bodies_exhaust_retries :
+    (let net : Net := ⟨false, List.replicate 12 .drpH, true, 1, [], false⟩
+     let out := runSignal .http 1 ((List.range 12).map fun i => ⟨Int.ofNat i + 1, 60⟩) net
+     out.1 = false ∧ out.2.log.length = 11 ∧ out.2.log.all (fun e => ackedBy .http e) = true) ∧
+    (let net : Net := ⟨false, List.replicate 6 .drpH, true, 1, [], false⟩
+     let out := runSignal .grpc 1 [⟨1, 60⟩] net
+     out.1 = false ∧ out.2.log.length = 6 ∧ out.2.log.all (fun e => !ackedBy .grpc e) = true) ∧
+    (let net : Net := ⟨false, List.replicate 5 .drpH, true, 1, [], false⟩
+     (runSignal .grpc 1 [⟨1, 60⟩] net).1 = true ∧ net.pending .grpc = 10) := by
+  decide
+
 /-! ### Non-vacuity -/
 
-example : ∃ net : Net, net.dead = false ∧ failCount .grpc net.script ≤ maxRetries ∧ failCount .grpc net.script > 0 :=
-  ⟨⟨false, [.grpcH 14, .ack, .stall, .status 503], true, 1, []⟩, rfl, by decide, by decide⟩
+example : ∃ net : Net, net.dead = false ∧ net.pending .grpc ≤ maxRetries ∧ net.pending .grpc = 6 :=
+  ⟨⟨false, [.grpcH 14, .ack, .stall, .rstH, .status 503, .drpH], true, 1, [], false⟩, rfl, by decide, by decide⟩
+example : ∃ net : Net, net.dead = false ∧ net.pending .http = 0 ∧ net.script ≠ [] :=
+  ⟨⟨false, [.ackBody, .status 204, .grpc 3], true, 1, [], false⟩, rfl, by decide, by decide⟩
+example : ∃ net : Net, net.dead = false ∧ net.staleNow = false ∧ net.nextResp.leavesStale = true ∧
+    net.nextResp.headArrives = true := ⟨⟨false, [.drpH], true, 1, [], false⟩, rfl, rfl, rfl, rfl⟩
 example : (Chan.ofEvents 100 [⟨1, 60⟩, ⟨2, 60⟩, ⟨3, 10⟩, ⟨4, 200⟩, ⟨5, 1⟩]).requests =
     [[⟨5, 1⟩], [⟨3, 10⟩, ⟨4, 200⟩], [⟨1, 60⟩, ⟨2, 60⟩]] := by decide
 example : ∃ (reqs rem : List Request) (net net' : Net), net.dead = false ∧ send .http reqs net = (.retry rem, net') :=
-  ⟨[[⟨1, 1⟩], [⟨2, 1⟩]], [[⟨2, 1⟩]], ⟨false, [.ack, .rstA], true, 1, []⟩,
-   (send .http [[⟨1, 1⟩], [⟨2, 1⟩]] ⟨false, [.ack, .rstA], true, 1, []⟩).2, rfl, by decide⟩
+  ⟨[[⟨1, 1⟩], [⟨2, 1⟩]], [[⟨2, 1⟩]], ⟨false, [.ack, .rstA], true, 1, [], false⟩,
+   (send .http [[⟨1, 1⟩], [⟨2, 1⟩]] ⟨false, [.ack, .rstA], true, 1, [], false⟩).2, rfl, by decide⟩
 example : ∃ (reqs : List Request) (net net' : Net), reqs.length = 2 ∧ send .grpc reqs net = (.ok, net') :=
-  ⟨[[⟨1, 1⟩], [⟨2, 1⟩]], ⟨false, [.ack, .grpc 0], true, 1, []⟩,
-   (send .grpc [[⟨1, 1⟩], [⟨2, 1⟩]] ⟨false, [.ack, .grpc 0], true, 1, []⟩).2, rfl, by decide⟩
+  ⟨[[⟨1, 1⟩], [⟨2, 1⟩]], ⟨false, [.ack, .grpc 0], true, 1, [], false⟩,
+   (send .grpc [[⟨1, 1⟩], [⟨2, 1⟩]] ⟨false, [.ack, .grpc 0], true, 1, [], false⟩).2, rfl, by decide⟩
 
 end EmitModel.C12
